@@ -130,7 +130,7 @@ type GuardDecl struct {
 	When   string
 }
 
-var labelRe = regexp.MustCompile(`^([A-Za-z0-9_.\-]+):\s+(.*)$`)
+var labelRe = regexp.MustCompile(`^([A-Za-z0-9_./\-]+):\s+(.*)$`)
 
 func ParseContracts(path string) (*ContractFile, error) {
 	f, err := os.Open(path)
